@@ -27,6 +27,27 @@ type sink struct {
 	bad     []string
 }
 
+// received reports how many requests arrived since the last reset.
+func (s *sink) received() int {
+	s.mu.Lock()
+	defer s.mu.Unlock()
+	return len(s.traces) + len(s.metrics) + len(s.logs) + len(s.zipkin) + len(s.bad)
+}
+
+// exportTo runs one export against a collector. A call that fails without anything having reached
+// the collector is repeated (twice at most): a transient transport hiccup on a busy machine must not
+// turn into an alarm, while a deterministic failure of the exporter stays a failure.
+func exportTo(s *sink, f func() error) error {
+	var err error
+	for attempt := 0; attempt < 3; attempt++ {
+		s.reset()
+		if err = f(); err == nil || s.received() > 0 {
+			return err
+		}
+	}
+	return err
+}
+
 func (s *sink) reset() {
 	s.mu.Lock()
 	s.traces, s.metrics, s.logs, s.zipkin, s.bad = nil, nil, nil, nil, nil
